@@ -2,6 +2,7 @@ package main
 
 import (
 	"fmt"
+	"reflect"
 	"strings"
 	"time"
 
@@ -84,4 +85,56 @@ func showCompile(f []string) string {
 
 func init() {
 	stages["compile"] = showCompile
+}
+
+func showWalk(f []string) string {
+	src := unhx(f[0])
+	mask := -1
+	fmt.Sscanf(f[1], "%d", &mask)
+	stmts, err := parser.Parse(src)
+	if err != nil {
+		return "ERR"
+	}
+	var sb strings.Builder
+	sb.WriteString("OK")
+	for _, st := range stmts {
+		sb.WriteString(" |")
+		calls := 0
+		parser.Walk(st, func(n parser.Node) bool {
+			i := calls
+			calls++
+			if n == nil || reflect.ValueOf(n).IsNil() {
+				sb.WriteString(" NIL")
+				return i != mask
+			}
+			sp := n.Span()
+			fmt.Fprintf(&sb, " %s:%d:%d", reflect.TypeOf(n).Elem().Name(), sp.Start, sp.End)
+			return i != mask
+		})
+	}
+	return sb.String()
+}
+
+func showLit(f []string) string {
+	toks := parser.Scan(unhx(f[0]))
+	if len(toks) != 1 || (toks[0].Kind != parser.TokenNumber && toks[0].Kind != parser.TokenString) {
+		return "-"
+	}
+	lit := &parser.BasicLit{Kind: toks[0].Kind, Value: toks[0].Value, ValueSpan: toks[0].Span}
+	b := func(x bool) string {
+		if x {
+			return "t"
+		}
+		return "f"
+	}
+	u := "-"
+	if !lit.IsFloat() {
+		u = fmt.Sprint(lit.Uint64())
+	}
+	return b(lit.IsInteger()) + " " + b(lit.IsFloat()) + " " + u
+}
+
+func init() {
+	stages["walk"] = showWalk
+	stages["lit"] = showLit
 }
